@@ -1,0 +1,9 @@
+//go:build !verif
+
+package event
+
+import "reflect"
+
+// verifPoint marks a synchronisation point of Feed (see zz_verif_hooks.go).
+// Without the `verif` build tag it is an empty, inlinable stub.
+func verifPoint(f *Feed, point string, ch reflect.Value) {}
